@@ -53,21 +53,23 @@ Calls ==
 Names == {c.name : c \in Calls}
 CallOf(n) == CHOOSE c \in Calls : c.name = n
 
-VARIABLES prefix, dirty, observed
-vars == <<prefix, dirty, observed>>
+\* "style": the documented global option selecting the random generator (law_set_old_style); part of the
+\* configuration of the session, set identically in both processes
+VARIABLES prefix, dirty, observed, style
+vars == <<prefix, dirty, observed, style>>
 
-Init == prefix = <<>> /\ dirty = {} /\ observed = "none"
+Init == prefix = <<>> /\ dirty = {} /\ observed = "none" /\ style \in {"old", "new"}
 Step(n) == /\ observed = "none" /\ Len(prefix) < MaxPrefix
            /\ prefix' = Append(prefix, n)
            /\ dirty' = dirty \cup CallOf(n).writes
-           /\ UNCHANGED observed
+           /\ UNCHANGED <<observed, style>>
 Observe(n) == /\ observed = "none" /\ CallOf(n).obs
               /\ observed' = n
-              /\ UNCHANGED <<prefix, dirty>>
+              /\ UNCHANGED <<prefix, dirty, style>>
 Next == \E n \in Names : Step(n) \/ Observe(n)
 Spec == Init /\ [][Next]_vars
 
 \* the effect table predicts history independence of the observed call
 Independent == observed = "none" \/ CallOf(observed).reads \cap dirty = {}
-EmitScripts == observed = "none" \/ PrintT(ToJson([prefix |-> prefix, observed |-> observed, predicted_independent |-> Independent]))
+EmitScripts == observed = "none" \/ PrintT(ToJson([prefix |-> prefix, observed |-> observed, style |-> style, predicted_independent |-> Independent]))
 =============================================================================
